@@ -42,6 +42,7 @@ var pointFuncs = []string{
 	"internal/ingress:HMACAuth.Verify",
 	"internal/ingress:nonceCache.seenOnceAt",
 	"internal/ingress:nonceCache.seenOnce",
+	"internal/pullapi:Server.ServeHTTP",
 	"internal/pullapi:Server.Dequeue",
 	"internal/pullapi:Server.AckSingle",
 	"internal/pullapi:Server.AckBatch",
